@@ -11,6 +11,7 @@ import math
 import multiprocessing as mp
 import os
 import sys
+import signal
 import time
 import traceback
 import warnings
@@ -290,11 +291,25 @@ def run_replay(h, inputs, label, params):
     return rep, detail
 
 
+class JobTimeout(BaseException):
+    pass
+
+
 def _job(args):
     """worker: explore one harness configuration; replay counterexamples."""
     modname, hname, params, tier, deadline_s = args
     t0 = time.time()
     out = dict(harness=hname, params=params, cex=[], error=None)
+    # hard wall-clock bound per configuration (3 x the exploration budget + 5 min for replays): the exploration budget is
+    # only checked between paths, so real code that does not return on some input would otherwise block the check forever.
+    # The timer keeps firing (an exception raised while a z3 callback is on the stack is swallowed there).
+    def _hard(signum, frame):
+        raise JobTimeout(f"configuration exceeded the hard bound of {int(3 * deadline_s + 300)} s")
+    try:
+        signal.signal(signal.SIGALRM, _hard)
+        signal.setitimer(signal.ITIMER_REAL, 3 * deadline_s + 300, 5)
+    except (ValueError, OSError):
+        pass
     try:
         mod = importlib.import_module(modname)
         h = next(x for x in mod.HARNESSES if x.name == hname)
@@ -414,6 +429,11 @@ def _job(args):
     except BaseException as e:  # machinery failure
         out["error"] = repr(e) + " @ " + " <- ".join(
             f"{os.path.basename(fr.filename)}:{fr.lineno}" for fr in traceback.extract_tb(e.__traceback__)[-4:])
+    finally:
+        try:
+            signal.setitimer(signal.ITIMER_REAL, 0)
+        except (ValueError, OSError):
+            pass
     out["wall_s"] = round(time.time() - t0, 3)
     return out
 
